@@ -8,7 +8,7 @@
    harness checks those oracles numerically on the implementation (interior angles from tangent vectors, enclosed
    area by a triangle fan, common region by planar clipping). *)
 From Coq Require Import Reals ZArith List Bool Lra Lia PrimFloat.
-From PR Require Import Base.Num Base.RNum Base.F64 Model.SphPoly Model.SphTrigR Gen.GenC17
+From PR Require Import Base.Num Base.RNum Base.F64 Base.Imp Model.SphPoly Model.SphTrigR Model.SphPolyObj Gen.GenC17 Gen.GenC17imp Proofs.C17_imp
      Proofs.C17_area Proofs.C17_setops Proofs.C17_walk Proofs.C17_gen Proofs.C17_hist.
 Import ListNotations.
 Open Scope R_scope.
@@ -273,3 +273,53 @@ Proof.
     + intros l H. vm_compute in H. discriminate.
     + intros l H. vm_compute in H. discriminate.
 Qed.
+
+(* ---------- code is model (third round): loop-carrying and stateful code translated by tools/py2coq_imp.py
+   (coq/Gen/GenC17imp.v, regenerated from /repo on every run), geometry abstract *)
+
+(* Arc.get_next_intersection -- the collecting loop, the sort, the scan with the take_next flag and its early returns --
+   computes [gni]: the (crossing, arc) pairs kept, sorted, then the first pair (no known crossing) or the first pair
+   after an occurrence of the known crossing that is not itself the known crossing.  No fuel: both loops are for loops. *)
+Theorem C17_get_next_intersection_code_is_model :
+  forall (P ARC : Type) (isect : ARC -> ARC -> option P) (keep : ARC -> ARC -> P -> bool)
+         (sort_res : ARC -> list (P * ARC) -> list (P * ARC)) (peq : P -> P -> bool) (p0 : P) (a0 : ARC)
+         (self : ARC) (arcs : list ARC) (known : option P),
+  value_of (imp_get_next_intersection isect keep sort_res peq p0 a0 self arcs known)
+  = COk (gni isect keep sort_res peq self arcs known).
+Proof. exact @get_next_intersection_code_is_model. Qed.
+Print Assumptions C17_get_next_intersection_code_is_model.
+
+(* ... and [gni] on the crossing table (arcs = edge indices, points = table rows, sort = stable insertion sort on the
+   distance column) is the hand model's get_next_intersection that the edge walk and the correspondence use; the arc
+   it returns is the crossing's edge of the other polygon *)
+Theorem C17_gni_is_table_model :
+  forall (T : Type) (OP : ops T) (A : @arrangement T) (side : bool) (e : Z) (others : list Z) (known : option (@xing T)),
+  let r := gni (tab_isect A side) (@tab_keep T) (fun _ => sort_pairs OP side) (@tab_peq T) e others known in
+  fst r = get_next_intersection OP A side e others (option_map xid known) /\
+  snd r = option_map (xe (negb side)) (fst r).
+Proof. exact @gni_is_table_model. Qed.
+Print Assumptions C17_gni_is_table_model.
+
+(* SphPolygon.invert(): the object becomes [invert_obj] (both arrays reversed, the five column attributes re-read),
+   its vertex list is the model's [inverse] *)
+Theorem C17_invert_code_is_model :
+  forall (V C F : Type) (col0 col1 : V -> F) (c0 c1 c2 : C -> F) (p : poly V C F),
+  state_of (imp_invert col0 col1 c0 c1 c2 p) = COk (mk_imp_invert_st (invert_obj col0 col1 c0 c1 c2 p)) /\
+  pv (invert_obj col0 col1 c0 c1 c2 p) = inverse (pv p).
+Proof. exact @invert_code_is_model. Qed.
+Print Assumptions C17_invert_code_is_model.
+(* SphPolygon.inverse(): returns the polygon constructed from the reversed vertex array; the object is unchanged *)
+Theorem C17_inverse_code_is_model :
+  forall (V C F : Type) (new_poly : list V -> F -> poly V C F) (f0 : F) (p : poly V C F),
+  value_of (imp_inverse new_poly f0 p) = COk (new_poly (inverse (pv p)) (pradius p)) /\
+  match state_of (imp_inverse new_poly f0 p) with COk s => imp_inverse_self s = p | _ => False end.
+Proof. exact @inverse_code_is_model. Qed.
+Print Assumptions C17_inverse_code_is_model.
+(* any history of area()/inverse()/invert() run on the TRANSLATED methods leaves the object's vertex list where the
+   history model (C17_history_state, C17_history_inverse_law) says *)
+Theorem C17_history_code_is_model :
+  forall (V C F : Type) (col0 col1 : V -> F) (c0 c1 c2 : C -> F) (new_poly : list V -> F -> poly V C F) (f0 : F)
+         (h : list pop) (p : poly V C F),
+  pv (fold_left (obj_step col0 col1 c0 c1 c2 new_poly f0) h p) = fold_left pstep h (pv p).
+Proof. exact @history_code_is_model. Qed.
+Print Assumptions C17_history_code_is_model.
